@@ -4,14 +4,20 @@ package main
 // healthz scenario (health.AddHealthz + the real grpc health server).
 
 import (
+	"bufio"
 	"context"
 	"encoding/json"
 	"fmt"
+	"io"
+	"log"
+	"net"
+	"net/http"
 	"net/http/httptest"
 	"net/url"
 	"runtime"
 	"strings"
 	"sync"
+	"time"
 
 	"google.golang.org/genproto/googleapis/api/annotations"
 	"google.golang.org/genproto/googleapis/api/serviceconfig"
@@ -60,6 +66,15 @@ func selText(s ASel) string {
 }
 
 func runSelCase(c SelCase, target []string) (ev SelEv) {
+	// every other selector is configured a second time with another pattern: a selector may carry several rules
+	// and each of them is bound on its own
+	sels := append([]ASel{}, c.Sels...)
+	for k, s := range c.Sels {
+		if (c.ID+k)%2 == 0 {
+			sels = append(sels, s)
+		}
+	}
+	c.Sels = sels
 	ev = SelEv{Ev: "Sel", Case: c.ID, Target: target, Sels: c.Sels, Bound: make([]bool, len(c.Sels)), Out: "ok"}
 	for i := range ev.Sels {
 		if ev.Sels[i].Path == nil {
@@ -137,7 +152,58 @@ func runHealthz(id int, seed int64, steps int) []interface{} {
 		healthpb.HealthCheckResponse_SERVING, healthpb.HealthCheckResponse_NOT_SERVING,
 		healthpb.HealthCheckResponse_UNKNOWN, healthpb.HealthCheckResponse_SERVICE_UNKNOWN,
 	}
+	var srv *httptest.Server
+	defer func() {
+		if srv != nil {
+			srv.Close()
+		}
+	}()
+	watches := 0
 	for i := 0; i < steps; i++ {
+		if r.Intn(6) == 0 && watches < 6 {
+			// Watch over a WebSocket session: the first frame is the current status of the service named in the query
+			watches++
+			if srv == nil {
+				srv = httptest.NewUnstartedServer(mux)
+				srv.Config.ErrorLog = log.New(io.Discard, "", 0)
+				srv.Start()
+			}
+			s := append(services[:3:3], "nope")[r.Intn(4)]
+			ev := HEv{Ev: "HWatch", Case: id, Service: s}
+			target := "/v1/healthz"
+			if s != "" || r.Bool() {
+				target += "?service=" + url.QueryEscape(s)
+			}
+			if conn, err := net.DialTimeout("tcp", srv.Listener.Addr().String(), 5*time.Second); err == nil {
+				conn.SetDeadline(time.Now().Add(5 * time.Second))
+				fmt.Fprintf(conn, "GET %s HTTP/1.1\r\nHost: verif.test\r\nUpgrade: websocket\r\nConnection: Upgrade\r\nSec-WebSocket-Key: dGhlIHNhbXBsZSBub25jZQ==\r\nSec-WebSocket-Version: 13\r\n\r\n", target)
+				br := bufio.NewReader(conn)
+				if res, err := http.ReadResponse(br, nil); err == nil {
+					ev.HTTP = res.StatusCode
+					if res.StatusCode == 101 {
+						hd := make([]byte, 2)
+						if _, err := io.ReadFull(br, hd); err == nil && hd[0]&0x0f == 1 && hd[1] < 126 {
+							p := make([]byte, int(hd[1]))
+							if _, err := io.ReadFull(br, p); err == nil {
+								var rsp healthpb.HealthCheckResponse
+								if err := protojson.Unmarshal(p, &rsp); err != nil {
+									ev.Status = "undecodable: " + err.Error()
+								} else {
+									ev.Status = rsp.Status.String()
+								}
+							}
+						} else {
+							ev.Status = fmt.Sprintf("no text frame (%v, % x)", err, hd)
+						}
+					}
+				}
+				conn.Close()
+			} else {
+				ev.Status = "infra: " + err.Error()
+			}
+			evs = append(evs, ev)
+			continue
+		}
 		if r.Intn(3) == 0 {
 			s, st := services[r.Intn(len(services))], statuses[r.Intn(len(statuses))]
 			hs.SetServingStatus(s, st)
